@@ -297,6 +297,15 @@ def check_prefilter(spec, ctx):
     for child in coll.iter_children():
         for x in ([child] if "bin" in vars(child) else []) + list(child.iter_children()):
             ctx.eq("stored_bin", x.bin, ref_bin(x.start, x.end), extra={"span": [x.start, x.end], "type": type(x).__name__})
+    # variants are binned by their reference span, anchor base included (a left-padded deletion whose anchor is the last base of a
+    # bin, an insertion anchored on the boundary base, an unpadded deletion across the boundary)
+    if b >= 2:
+        from inscripta.biocantor.gene.variants import VariantInterval
+        for vs_, ve_, alt_, vt_ in ((b - 1, b + 2, "T", "deletion"), (b - 1, b, "TAC", "insertion"), (b - 2, b + 1, "", "deletion"), (b - 1, b + 1, "GG", "MNV"), (b, b + 3, "A", "deletion")):
+            v_ = VariantInterval(vs_, ve_, alt_, vt_)
+            ctx.eq("variant_bin_is_the_bin_of_its_reference_span", v_.bin, ref_bin(vs_, ve_), extra=[vs_ - b, ve_ - b, alt_])
+            ctx.eq("variant_span_kept", (v_.start, v_.end), (vs_, ve_))
+        ctx.label("variants_across_the_boundary")
     cs, ce = coll.start, coll.end
     near = [b + d for d in range(-4, 5) if b + d >= 0]
     starts = sorted(set(near + [cs, max(0, b - 2 ** 17 - 1), max(0, b - 2 ** 17), max(0, b - 2 ** 17) + 1]))
